@@ -446,6 +446,15 @@ func enumAllCuts(env engine.Env, yield func(Case) bool) {
 			Case{Framing: f, Records: lits("{}", "[1]", "\"s\"", "")},
 			Case{Framing: f, Records: lits("a", "b", "c", "d", "e", "f")},
 		)
+		// a record that contains the split byte (refused, nothing written), and for
+		// split bytes above 0x7f a record that contains the UTF-8 encoding of the
+		// rune with that number (legal: it does not contain the byte ... unless it does)
+		_, sep, _ := framingOf(f)
+		cases = append(cases,
+			Case{Framing: f, Records: lits("ab", string([]byte{'x', sep, 'y'}), "c")},
+			Case{Framing: f, Records: lits(string([]byte{sep}), "z")},
+			Case{Framing: f, Records: lits("u"+string(rune(sep))+"v", "w")},
+		)
 	}
 	cases = append(cases,
 		Case{Framing: "rawjson", Records: lits(`{}`, `[]`, `""`, `{"a":1}`)},
